@@ -73,7 +73,20 @@ def rule_finally_placement(ctx, rep, rid: str) -> None:
     brs = [b for b in ea.run_chain("_compile_statement") if "TryStatement" in b.cls.split("|")]
     if not brs:
         raise AnalysisError("no TryStatement branch in the statement compiler")
-    br = brs[0]
+    _finally_placement_of(rep, rid, ea, brs[0], "")
+    # every other dispatcher that compiles try statements itself (the completion-value compiler) owes the same
+    for other in sorted(ea.methods):
+        if other == "_compile_statement" or not other.startswith("_compile_statement"):
+            continue
+        try:
+            obrs = [b for b in ea.run_chain(other) if "TryStatement" in b.cls.split("|")]
+        except AnalysisError:
+            continue
+        for ob in obrs:
+            _finally_placement_of(rep, rid, ea, ob, other + ":")
+
+
+def _finally_placement_of(rep, rid: str, ea, br, prefix: str) -> None:
     loc = f"{ea.comp.module.rel}:{br.line}"
     done: Set[str] = set()
     for e in br.ends:
@@ -88,10 +101,10 @@ def rule_finally_placement(ctx, rep, rid: str) -> None:
         # protected statement (the exceptional path pops the record in _throw)
         n_end = sum(1 for x in evs if x[0] == "emit" and x[1] == "TRY_END")
         shape = f"handler={bool(has_h)},finalizer={bool(has_f)}"
-        k2 = f"TryStatement:{shape}:try-end"
+        k2 = f"{prefix}TryStatement:{shape}:try-end"
         if k2 not in done:
             done.add(k2)
-            i_blk = next((i for i, x in enumerate(evs) if x[0] == "stmt" and x[1] == "node.block"), None)
+            i_blk = next((i for i, x in enumerate(evs) if x[0] in ("stmt", "value") and x[1] == "node.block"), None)
             i_end = next((i for i, x in enumerate(evs) if x[0] == "emit" and x[1] == "TRY_END"), None)
             if n_end == n_try and i_blk is not None and i_end is not None and i_blk < i_end:
                 rep.ok(rid, k2)
@@ -105,28 +118,28 @@ def rule_finally_placement(ctx, rep, rid: str) -> None:
             if has_h:
                 # a throw from the catch body must still run the finalizer: needs a second protected region
                 if n_try < 2 or n_fin < 2:
-                    rep.bad(rid, f"TryStatement:{key}:throw-from-catch", f"with both catch and finally, the catch body is compiled outside any TRY_START region ({n_try} TRY_START, finalizer compiled {n_fin}x): an exception thrown by the catch clause skips the finally block", loc)
+                    rep.bad(rid, f"{prefix}TryStatement:{key}:throw-from-catch", f"with both catch and finally, the catch body is compiled outside any TRY_START region ({n_try} TRY_START, finalizer compiled {n_fin}x): an exception thrown by the catch clause skips the finally block", loc)
                 else:
-                    rep.ok(rid, f"TryStatement:{key}:throw-from-catch")
+                    rep.ok(rid, f"{prefix}TryStatement:{key}:throw-from-catch")
             else:
                 # handler path: finalizer then THROW
                 idx_f = [i for i, x in enumerate(evs) if x[0] == "stmt" and x[1] == "node.finalizer"]
                 idx_t = [i for i, x in enumerate(evs) if x[0] == "emit" and x[1] == "THROW"]
                 if len(idx_f) >= 2 and idx_t and idx_f[0] < idx_t[0]:
-                    rep.ok(rid, f"TryStatement:{key}:rethrow", {"events": [str(x[:2]) for x in evs if x[0] in ("emit", "stmt")][:14]})
+                    rep.ok(rid, f"{prefix}TryStatement:{key}:rethrow", {"events": [str(x[:2]) for x in evs if x[0] in ("emit", "stmt")][:14]})
                 else:
-                    rep.bad(rid, f"TryStatement:{key}:rethrow", "try…finally without catch does not compile `finalizer; THROW` as its exception handler", loc)
+                    rep.bad(rid, f"{prefix}TryStatement:{key}:rethrow", "try…finally without catch does not compile `finalizer; THROW` as its exception handler", loc)
             # normal path finalizer is the last compile event
-            last = [x for x in evs if x[0] in ("stmt", "expr")][-1]
+            last = [x for x in evs if x[0] in ("stmt", "expr", "value")][-1]
             if last[1] == "node.finalizer":
-                rep.ok(rid, f"TryStatement:{key}:normal-exit")
+                rep.ok(rid, f"{prefix}TryStatement:{key}:normal-exit")
             else:
-                rep.bad(rid, f"TryStatement:{key}:normal-exit", "the finally block is not the last thing compiled on the normal path", loc)
+                rep.bad(rid, f"{prefix}TryStatement:{key}:normal-exit", "the finally block is not the last thing compiled on the normal path", loc)
             # the try context (carrying the finalizer) is on loop_stack exactly while the try block and the catch
             # body are compiled, and never while the finalizer itself is compiled
             problems = []
             for i, x in enumerate(evs):
-                if x[0] == "stmt" and i > 0 and evs[i - 1][0] == "ctxs":
+                if x[0] in ("stmt", "value") and i > 0 and evs[i - 1][0] == "ctxs":
                     snap = evs[i - 1][1]
                     declares = any(c[2] == "node.finalizer" and c[3] for c in snap)
                     if x[1] in ("node.block", "node.handler.body") and not declares:
@@ -134,15 +147,15 @@ def rule_finally_placement(ctx, rep, rid: str) -> None:
                     if x[1] == "node.finalizer" and declares:
                         problems.append("the finalizer is compiled while its own try context is still on loop_stack: a break/continue/return inside the finally block runs it again")
             if not problems:
-                rep.ok(rid, f"TryStatement:{key}:abrupt-exits", {"loop_stack": "the try context carrying the finalizer is pushed before the try block and popped before every copy of the finalizer"})
+                rep.ok(rid, f"{prefix}TryStatement:{key}:abrupt-exits", {"loop_stack": "the try context carrying the finalizer is pushed before the try block and popped before every copy of the finalizer"})
             else:
-                rep.bad(rid, f"TryStatement:{key}:abrupt-exits", problems[0], loc)
+                rep.bad(rid, f"{prefix}TryStatement:{key}:abrupt-exits", problems[0], loc)
         elif has_f is False and "no-finally" not in done:
             done.add("no-finally")
             if n_fin == 0 and not any(x[0] == "ctxs" and any(c[2] and c[3] for c in x[1]) and False for x in evs):
-                rep.ok(rid, "TryStatement:no-finally")
+                rep.ok(rid, f"{prefix}TryStatement:no-finally")
             else:
-                rep.bad(rid, "TryStatement:no-finally", "a try without finally compiles a finalizer or registers one", loc)
+                rep.bad(rid, f"{prefix}TryStatement:no-finally", "a try without finally compiles a finalizer or registers one", loc)
 
 
 # ------------------------------------------------------------------ C07-R5
@@ -572,6 +585,36 @@ def unwinding_signals(ctx) -> List[Tuple[str, Func, ast.Raise]]:
     return out
 
 
+def _runs_only_fresh(ctx, g, vmcls, bid, depth: int, seen: set) -> bool:
+    """Every call in g that can reach the interpreter's frame-pushing code is made on an interpreter that g itself
+    constructs (or through a helper of which the same holds): g cannot run callbacks of the interpreter that is
+    unwinding."""
+    from ..util import is_fresh_instance
+
+    if id(g) in seen or depth > 3 or id(g) in bid:
+        return False
+    seen = seen | {id(g)}
+    cg = ctx.cg
+    found = False
+    for c in g.own_nodes():
+        if not isinstance(c, ast.Call):
+            continue
+        cs = cg.site_of_call.get(id(c))
+        if cs is None:
+            continue
+        if cs.kind == "dynamic":
+            return False
+        hits = [tg for tg in cs.targets if id(tg) in bid or cg.reaches(tg, bid)]
+        if not hits:
+            continue
+        found = True
+        if isinstance(c.func, ast.Attribute) and is_fresh_instance(ctx, c.func.value, g, vmcls):
+            continue
+        if not all(_runs_only_fresh(ctx, tg, vmcls, bid, depth + 1, seen) for tg in hits):
+            return False
+    return found
+
+
 def rule_signal_not_swallowed(ctx, rep, rid: str) -> None:
     rep.rule(rid, "the signal that carries a script exception through a native function is caught only by the run loop's conversion wrapper: any broader handler (except Exception / bare except) around a call that can run a callback re-raises it unchanged, or runs a separately constructed interpreter", floor=1)
     t = ctx.tree
@@ -619,6 +662,10 @@ def rule_signal_not_swallowed(ctx, rep, rid: str) -> None:
                     from ..util import is_fresh_instance
 
                     ctor = isinstance(fn, ast.Attribute) and is_fresh_instance(ctx, fn.value, f, df.cls)
+                    if not ctor:
+                        cs0 = cg.site_of_call.get(id(c))
+                        if cs0 is not None and cs0.kind != "dynamic" and cs0.targets and all(_runs_only_fresh(ctx, tg, df.cls, bid, 0, set()) for tg in cs0.targets if id(tg) in bid or cg.reaches(tg, bid)):
+                            ctor = True  # a helper that builds its own interpreter and runs the code on that one
                     # pure helper calls (parser/compiler constructors) cannot run callbacks of this interpreter
                     cs = cg.site_of_call.get(id(c))
                     if not ctor and cs is not None and (cs.kind == "dynamic" or any(id(tg) in bid or cg.reaches(tg, bid) for tg in cs.targets)):
